@@ -148,8 +148,13 @@ def body_inprocess(case, rec):
             shutil.copy(str(src_b) + ".fai", fai)
             shutil.copy(str(src_b) + ".agp", agp)
             mt = src.stat().st_mtime_ns
+            which = case.get("stale_which", "both")
             for f in (fai, agp):
-                os.utime(f, ns=(mt, mt) if case["stale_equal"] else (mt - 10**9, mt - 10**9))
+                # 'both': neither cache file is newer than the FASTA; 'fai' / 'agp': only that one is not, the other is a second newer
+                if which == "both" or f.name.endswith(which):
+                    os.utime(f, ns=(mt, mt) if case["stale_equal"] else (mt - 10**9, mt - 10**9))
+                else:
+                    os.utime(f, ns=(mt + 10**9, mt + 10**9))
             code, got = run_in(d / "A", src, mp, "stale", prefix, "fa")
             if code != 0:
                 raise Violation(f"run over a stale index cache failed with exit {code}")
@@ -159,6 +164,16 @@ def body_inprocess(case, rec):
         if code != 0:
             raise Violation("repeated run failed")
         diff_files(base, got, "run repeated after a run on a different input in the same process")
+        if code_b == 0:
+            # the output directory already holds the files of a run on OTHER inputs (longer or shorter files of the same
+            # names): every file this run writes must still be exactly what a run into an empty directory writes
+            code_x, _x = run_in(d / "A", src_b, mp_b, "reused_dir", other.get("prefix", "SUPER_"), "fa")
+            code, got = run_in(d / "A", src, mp, "reused_dir", prefix, "fa")
+            if code != 0:
+                raise Violation("run into a directory that holds the output of a run on other inputs failed")
+            for n in base:
+                if n not in got or got[n] != base[n]:
+                    raise Violation(f"run into a directory that holds the output of a run on other inputs: {n} differs from the run into an empty directory ({len(got.get(n, b''))} vs {len(base[n])} bytes)")
         if code_b == 0:
             code, got = run_in(d / "B", src_b, mp_b, "again", other.get("prefix", "SUPER_"), "fa")
             if code != 0:
@@ -411,6 +426,7 @@ def inprocess_cases(draw):
         c["fasta"]["records"].append(["#late", "", "ACGTTGCA", 60, "\n"])
     c["buffers"] = draw(st.lists(st.sampled_from([1, 7, 50, 200]), min_size=1, max_size=2, unique=True))
     c["stale_equal"] = draw(st.booleans())
+    c["stale_which"] = draw(st.sampled_from(["both", "fai", "agp"]))
     return c
 
 
